@@ -9,7 +9,7 @@
 
   Every positive theorem is for ALL histories (lists of operations, no bound).
 -/
-import PercevalModel.Lemmas.C05
+import PercevalModel.Lemmas.C05Backend
 
 namespace PM.C05
 
@@ -113,23 +113,71 @@ theorem processor_history_independent (h₁ h₂ : List PrOp)
 example : (exec stepPr initPr [.addComp 1 1, .withInput 3, .setFilter 1, .probs, .setNoise 2]).config =
     (exec stepPr initPr [.addComp 1 1, .setNoise 2, .setFilter 1, .withInput 3]).config := by decide
 
-/-! ## Backends
+/-! ## Backends: Naive, SLAP, SLOS, MPS (repaired code, `fixed = true`)
 
-  FULL STATEMENT — NOT PROVED (kept visible; see manifest.d/C05.json):
-
-    theorem backend_query_eq_fresh (k : Kind) (ops : List Op) (q : Q) :
-        (stepB true (exec (stepB true) (initB k) ops) (.query q)).2 =
-          freshB true k (exec (stepB true) (initB k) ops).config q
-
-  Plan (half done): `InvB` (Lemmas/C05.lean: every iterator entry, SLOS layer / FS array / path, SLAP Fock
-  space, MPS compiled result carries the ghost of the current circuit, mask instance and cut-off) with
-  `invB_init`; missing are its preservation by `stepB true` for the six operations and four kinds, the closed
-  form `queryB = specB ∘ config` under `InvB`, and `config (exec … (canonB cfg)) = cfg` for well-formed `cfg`.
-  What is proved below are `decide`-checked witnesses only: the histories on which the code of the pinned tree
-  leaves the property, and that the repaired model agrees with a fresh backend on them.  For the backends the
-  assurance of the check is the correspondence run (exhaustive short + random histories against freshly
-  constructed objects and against this model), which is testing, not proof.
+  `InvB` (Lemmas/C05Backend.lean): every iterator entry, SLOS layer / FS array / path, the SLOS mask instance,
+  the SLAP Fock space and the MPS compiled result carry the ghost of the current circuit, mask instance and
+  cut-off.  It is preserved by every operation of `stepB true` for every kind (`invB_step`), under it a query
+  has the closed form `ansB kind config` (`queryB_ans`), and the canonical sequence reproduces every reachable
+  configuration (`config_canonB`, `wf_of_invB`).
 -/
+
+/-- the invariant holds after every history, for every backend kind -/
+theorem backend_inv_all_histories (k : Kind) (ops : List Op) : InvB (exec (stepB true) (initB k) ops) :=
+  inv_exec _ InvB (fun s op h => invB_step s op h) _ (invB_init k) ops
+
+/-- in ANY state satisfying the invariant, every query (`prob_distribution`, `all_prob`, `evolve`,
+`prob_amplitude` / `probability` with the same or another photon number) answers what a freshly constructed
+backend of the same kind, given only the configuration, answers -/
+theorem backend_query_eq_fresh (s : B) (q : Q) (h : InvB s) :
+    (stepB true s (.query q)).2 = freshB true s.kind s.config q := by
+  have hf := backend_inv_all_histories s.kind (canonB s.config)
+  unfold freshB
+  simp only [stepB]
+  rw [queryB_ans s q h, queryB_ans _ q hf, exec_kind, config_canonB _ _ (wf_of_invB s h)]
+  rfl
+
+/-- the full statement: after ANY history, for every kind and every query -/
+theorem backend_query_eq_fresh_all_histories (k : Kind) (ops : List Op) (q : Q) :
+    (stepB true (exec (stepB true) (initB k) ops) (.query q)).2 =
+      freshB true k (exec (stepB true) (initB k) ops).config q := by
+  have := backend_query_eq_fresh _ q (backend_inv_all_histories k ops)
+  rwa [exec_kind] at this
+
+/-- two histories ending in the same configuration give the same answer -/
+theorem backend_history_independent (k : Kind) (h₁ h₂ : List Op) (q : Q)
+    (hc : (exec (stepB true) (initB k) h₁).config = (exec (stepB true) (initB k) h₂).config) :
+    (stepB true (exec (stepB true) (initB k) h₁) (.query q)).2 =
+      (stepB true (exec (stepB true) (initB k) h₂) (.query q)).2 := by
+  rw [backend_query_eq_fresh_all_histories, backend_query_eq_fresh_all_histories, hc]
+
+/-- non-vacuity of `InvB`: the initial state, hence (by `backend_inv_all_histories`) every reachable state -/
+example (k : Kind) : InvB (initB k) := invB_init k
+
+/-- non-vacuity: different histories (mask set late / early, intermediate inputs with another photon number,
+intermediate queries filling the caches) with the same final configuration, for SLOS and MPS -/
+example : (exec (stepB true) (initB .slos)
+      [.setCircuit ⟨2, 1⟩, .setInput [1, 1], .query .dist, .setMask 1 2 none, .setInput [1, 0], .query .dist,
+       .setInput [1, 1]]).config =
+    (exec (stepB true) (initB .slos) [.setMask 1 2 none, .setCircuit ⟨2, 1⟩, .setInput [1, 1]]).config := by
+  decide
+
+example : (exec (stepB true) (initB .mps)
+      [.setCircuit ⟨4, 1⟩, .setInput [1, 1, 1, 0], .query .dist, .setCutoff 2, .setInput [1, 1, 0, 0]]).config =
+    (exec (stepB true) (initB .mps) [.setCutoff 2, .setCircuit ⟨4, 1⟩, .setInput [1, 1, 0, 0]]).config := by
+  decide
+
+/-- the code of the pinned tree does not have the property (SLOS: mask set after the input) -/
+theorem backend_fails_on_current_code :
+    ¬ ∀ (k : Kind) (ops : List Op) (q : Q),
+      (stepB false (exec (stepB false) (initB k) ops) (.query q)).2 =
+        freshB false k (exec (stepB false) (initB k) ops).config q := by
+  intro h
+  have := h .slos [.setCircuit ⟨2, 1⟩, .setInput [1, 1], .setMask 1 2 none] .dist
+  revert this
+  decide
+
+/-! ### witnesses: the histories on which the code of the pinned tree leaves the property -/
 
 /-- SLOS, code of the pinned tree: `set_circuit; set_input_state; set_mask; prob_distribution()` raises
 `KeyError` whereas a fresh backend returns a distribution -/
